@@ -122,6 +122,7 @@ def run(ctx):
                     R.instance("CALL", "%s extracts an id with size 4" % p)
                 else:
                     R.violation("CALL", p + "|size", "%s extracts an id field with size %s, DLT ids are 4 bytes" % (p, k.get("int") if k else "non-constant"), file=fl, line=ln, function=p)
+    passthrough(ctx, "parse::parse_ecu_id")
     refs = 0
     for p in ("parse::dlt_extended_header", "parse::maybe_parse_ecu_id::parse_ecu_id_to_option"):
         bb = F.body(p)
@@ -133,6 +134,56 @@ def run(ctx):
                 refs += 1
                 R.instance("CALL", "%s uses parse_ecu_id" % p)
     R.floor("CALL", 5)
+
+
+def passthrough(ctx, p):
+    """CALL-S: every exit of the id extractor returns what the generic fixed-size extraction returns for (input, 4) —
+    there is no other way to produce an id (a fast path would have to re-implement the first-NUL rule)."""
+    from engine.contracts import ret_ty
+    F, R = ctx.facts, ctx.report
+    b = F.body(p)
+    if b is None:
+        return
+    eng = Engine(F)
+    eng.key_all = True
+    calls = []
+
+    def on_call(eng_, st, fr, f, args, site):
+        if (f.get("resolved") or f["path"]) == FN or f["path"] == FN:
+            a0 = repr(args[0])
+            size = args[1].lin.c if isinstance(args[1], Int) and args[1].lin.is_const() else None
+            calls.append((a0, size))
+            st.key = st.key + (("rx", "zts"),)
+            return [(st, Top(ret_ty(eng_, site), "zts"))]
+        return None
+
+    eng.on_call = on_call
+    outs = eng.call_path(p, eng.symbolic_args(b, names=["input"]))
+    fl, ln = b["span"]["f"], b["span"]["l"]
+    bad = 0
+    for st, rv in outs:
+        through = any(k[0] == "rx" and k[1] == "zts" for k in st.key)
+        ok = through
+        if ok and isinstance(rv, Enum):
+            for vi, fs in rv.variants:
+                vn = eng.T.variant_name(rv.ty, vi)
+                for fv in fs:
+                    parts = fv.fields if isinstance(fv, Struct) else (fv,)
+                    for x in parts:
+                        if ("zts.%s.0" % vn) not in repr(x):
+                            ok = False
+        elif ok and not (isinstance(rv, Top) and rv.name == "zts"):
+            ok = False
+        if ok:
+            R.obligation("CALL-S", "%s|exit|%r" % (p, st.key[-2:]), "discharged", "the exit returns the generic extraction's result unchanged")
+        else:
+            bad += 1
+    if bad:
+        R.violation("CALL-S", p + "|passthrough", "%d of %d exits of %s do not return the result of %s(input, 4): an id can be produced by other code than the first-NUL extraction" % (bad, len(outs), p, FN), function=p, file=fl, line=ln)
+    elif calls and all(sz == 4 and "input" in a0 for a0, sz in calls):
+        R.instance("CALL-S", "%s returns %s(input, 4) on all %d exits" % (p, FN, len(outs)))
+    else:
+        R.violation("CALL-S", p + "|args", "%s calls the generic extraction with %s instead of (input, 4)" % (p, calls), function=p, file=fl, line=ln)
 
 
 _pred_done = set()
